@@ -827,7 +827,7 @@ class Ctx:
                 edges.add((c.bb, c.target))
         return sites, edges
 
-    def order(self, clause, fn_or_pat, first, then, desc=None, key=None, first_want=+1):
+    def order(self, clause, fn_or_pat, first, then, desc=None, key=None, first_want=+1, _inst=None, _depth=0):
         _log_pats(first, then)
         """R2: every path to a call of `then` has passed a successful call of `first`."""
         f = fn_or_pat if not isinstance(fn_or_pat, str) else self.try_fn(clause, fn_or_pat)
@@ -839,6 +839,24 @@ class Ctx:
         tname, tp = then
         inst = '%s: %s (success) precedes %s' % (fn_short(f.name), fname, tname)
         k = key or ('order:%s:%s<%s' % (fn_short(f.name), fname, tname))
+        if _inst is not None:
+            inst, k = _inst
+        # both steps moved into one helper under the entry: the order is decided inside that helper
+        if _depth < 2 and not self.call_sites(body, tp):
+            tpl = [tp] if isinstance(tp, str) else list(tp)
+            fpl0 = [fp] if isinstance(fp, str) else list(fp)
+            root0 = getattr(f, '_orig', f).root()
+            both = []
+            for h in self.closure_fns(f, depth=3):
+                if h is root0:
+                    continue
+                try:
+                    if self.closure_sites(h, tpl, depth=2) and self.closure_sites(h, fpl0, depth=2) and not self.call_sites(body, fp):
+                        both.append(h)
+                except Exception:  # noqa
+                    pass
+            if both:
+                return self.order(clause, self.view(both[0]), first, then, desc, key, first_want, _inst=(inst, k), _depth=_depth + 1)
         fs, edges = self.success_edges_of(lf, fp, first_want)
         ts = self.call_sites(body, tp)
         if not fs and first_want == +1:
@@ -857,8 +875,20 @@ class Ctx:
             if helpers:
                 fs, edges = self.success_edges_of(lf, helpers, +1)
         if not ts:
-            # ... and `then` likewise: its call sites inside helpers are checked where they are (the helper must itself respect the order)
-            pass
+            # ... and `then` likewise: a call of a helper under which `then` happens counts as the `then` step
+            tpl = [tp] if isinstance(tp, str) else list(tp)
+            root0 = getattr(f, '_orig', f).root()
+            hs = []
+            for h in self.closure_fns(f, depth=3):
+                if h is root0:
+                    continue
+                try:
+                    if self.closure_sites(h, tpl, depth=2):
+                        hs.append(h.name)
+                except Exception:  # noqa
+                    pass
+            if hs:
+                ts = self.call_sites(body, hs)
         if not fs or not ts:
             self.report.violation(clause, 'R2', inst, k, '%s sites: %d, %s sites: %d' % (fname, len(fs), tname, len(ts)), f.loc())
             return False
